@@ -80,7 +80,13 @@ def detect(name, tier="quick", seed=None):
     pid = meta["property"]
     st = subprocess.run(["git", "-C", REPO, "status", "--porcelain"], capture_output=True, text=True).stdout.strip()
     assert not st, "repo working tree is not clean:\n" + st
-    rc = subprocess.run(["git", "-C", REPO, "apply", os.path.join(d, "patch.diff")]).returncode
+    rc = subprocess.run(["git", "-C", REPO, "apply", os.path.join(d, "patch.diff")], capture_output=True).returncode
+    if rc != 0:
+        # the cfg-guarded hook lines added since the change was seeded may have moved its context: three-way apply
+        rc = subprocess.run(["git", "-C", REPO, "apply", "--3way", os.path.join(d, "patch.diff")], capture_output=True).returncode
+        subprocess.run(["git", "-C", REPO, "reset", "-q"])
+    if rc != 0:
+        subprocess.run(["git", "-C", REPO, "checkout", "--", "."])
     assert rc == 0, "patch does not apply"
     try:
         t0 = time.time()
